@@ -80,7 +80,8 @@ def impl_decl(ty, fmt, allowed, allow_empty, length, rule, cells):
 
 
 def cells_for(base, allowed):
-    cells = ["", " ", "  ", "   ", "    ", "\t", " \t "]
+    # the length of a cell is its number of characters (code points): combining marks count
+    cells = ["", " ", "  ", "   ", "    ", "\t", " \t ", "e\u0301", "cafe\u0301", "a\u0308bc", "cafe\u0301s", "e\u0301e\u0301e\u0301"]
     for b in base:
         cells.append(b)
         # exactly one character outside typical allowed ranges at every position
